@@ -98,4 +98,11 @@ PROPS = {
                       "the interference theorem is about agents whose step function receives only its own component; that the code has this shape is tied by the regenerated (empty) list of package-level write sites and the frozen list of package-level variables"],
         assumptions=["partial by nature: schedules are sampled by the Go scheduler, not enumerated"],
     ),
+    "C13": dict(
+        lean=["Rscp.Props.C13", "Rscp.Tie.JsonOut"],
+        streams=[dict(name="jsonout", quick=120, thorough=3000, thorough_seeds=2)],
+        trusted_base=["encoding/json's printing of leaves: modelled only as far as 'can it be printed' (NaN/Inf, year range) and 'integral float below 1e21 prints as an integer'; the digits of non-integral floats and of time stamps are abstracted (tokens F, T) on both sides",
+                      "Go's Time.Year() over the whole int64 range is modelled (goYear) and validated by the stream's time-edge cases",
+                      "the response reaches the formatter through the verif loop of the e3dc binary (overlay), which decodes a plaintext frame with rscp.Read"],
+    ),
 }
